@@ -150,12 +150,20 @@ class G:
             if d(st.integers(0, 2)) == 0:
                 opts["share"] = True
                 self.shared.append((fid, m))
+        if not opts and d(st.integers(0, 5)) == 0:
+            # two oblivious ranges advanced in lockstep: for i, j in zip(_range(s, max=M), _range(z, max=M)) against
+            # zip(range(s), range(z)); closed by one _endfor() per range
+            opts["zip"] = True
         self.loopvars.append(lv)
+        if opts.get("zip"):
+            self.loopvars.append("j%d" % fid)
         body = self.block(depth + 1)
-        brk = self.cond() if d(st.integers(0, 3)) == 0 else None
+        brk = self.cond() if d(st.integers(0, 3)) == 0 and not opts.get("zip") else None
         pos = d(st.integers(0, len(body)))
         self.loopvars.remove(lv)
-        return ["for", opts or None, m, lv, body, d(st.booleans()), brk, pos, fid]
+        if opts.get("zip"):
+            self.loopvars.remove("j%d" % fid)
+        return ["for", opts or None, m, lv, body, d(st.booleans()) and not opts.get("zip"), brk, pos, fid]
 
 
 def draw_case(draw):
@@ -180,6 +188,9 @@ def draw_case(draw):
                     lo = (s[1] or {}).get("start", 0)          # stop >= start: the precondition of _range(start, stop)
                     va["stops"][str(s[8])] = draw(st.integers(lo, s[2]))
                     vb["stops"][str(s[8])] = draw(st.integers(lo, s[2]))
+                    if (s[1] or {}).get("zip"):
+                        va["stops"]["z%d" % s[8]] = draw(st.integers(0, s[2]))
+                        vb["stops"]["z%d" % s[8]] = draw(st.integers(0, s[2]))
                 fill(s[4])
             elif s[0] == "while":
                 fill(s[3])
@@ -377,6 +388,9 @@ def _render(case, obl):
                 rng = "range(%ss%d)" % (start, cid)
             if obl:
                 rng = "CAP(%s)" % rng
+            if opts.get("zip"):
+                lv = "%s, j%d" % (lv, cid)
+                rng = "zip(%s, %s)" % (rng, ("CAP(_range(sz%d, max=%d%s))" % (cid, m, CX2)) if obl else "range(sz%d)" % cid)
             if "reuse" in opts:
                 rng = "r%d" % opts["reuse"]
             elif opts.get("share"):
@@ -394,6 +408,8 @@ def _render(case, obl):
                 emit(ind + 1, "pass")
             if obl:
                 emit(ind, "_endfor(%s)" % CX1)
+                if opts.get("zip"):
+                    emit(ind, "_endfor(%s)" % CX1)
     block(case["body"], 0)
     return "\n".join(L) + "\n"
 
